@@ -61,3 +61,57 @@ func TestXmpElementValueLengths(t *testing.T) {
 		t.Fatalf("element values of these lengths are not extracted: %v", bad)
 	}
 }
+
+// C13 MAXINCL: the range checks in front of the narrowing conversions refused the largest value itself:
+// exif:MeteringMode="255" (other) read as 0 (unknown), a 32-bit field holding 4294967295 read as 0.
+func TestXmpLargestValues(t *testing.T) {
+	p := xmpPacket(`<rdf:Description rdf:about="" xmlns:exif="http://ns.adobe.com/exif/1.0/" xmlns:aux="http://ns.adobe.com/exif/1.0/aux/" exif:MeteringMode="255" exif:PixelXDimension="4294967295" aux:LensID="4294967295"></rdf:Description>`)
+	x, err := xmp.ParseXmp(strings.NewReader(p))
+	if err != nil {
+		t.Fatal(err)
+	}
+	if uint16(x.Exif.MeteringMode) != 255 || x.Exif.PixelXDimension != 4294967295 || x.Aux.LensID != 4294967295 {
+		t.Errorf("MeteringMode=%d PixelXDimension=%d LensID=%d", x.Exif.MeteringMode, x.Exif.PixelXDimension, x.Aux.LensID)
+	}
+}
+
+// C13 WSSET: the tokenizer skipped only ' ' and '\n'; attributes of a packet indented with tabs or written with
+// CRLF line endings were dropped without an error.
+func TestXmpTabsAndCRLF(t *testing.T) {
+	for name, body := range map[string]string{
+		"tabs": "<rdf:Description rdf:about=\"\" xmlns:tiff=\"http://ns.adobe.com/tiff/1.0/\"\n\ttiff:Make=\"Canon\"\n\ttiff:Model=\"M1\"></rdf:Description>",
+		"crlf": "<rdf:Description rdf:about=\"\" xmlns:tiff=\"http://ns.adobe.com/tiff/1.0/\"\r\n   tiff:Make=\"Canon\"\r\n   tiff:Model=\"M1\"></rdf:Description>",
+	} {
+		x, err := xmp.ParseXmp(strings.NewReader(xmpPacket(body)))
+		if err != nil || x.Tiff.Make != "Canon" || x.Tiff.Model != "M1" {
+			t.Errorf("%s: err=%v Make=%q Model=%q", name, err, x.Tiff.Make, x.Tiff.Model)
+		}
+	}
+}
+
+// C13 FORMDEP (language alternatives): dc:description stored the xml:lang attribute value of its rdf:li item as an
+// item ("x-default", "A text"); dc:title and dc:rights had the test it lacked.
+func TestXmpDescriptionLangAlt(t *testing.T) {
+	body := `<rdf:Description rdf:about="" xmlns:dc="http://purl.org/dc/elements/1.1/"><dc:description><rdf:Alt><rdf:li xml:lang="x-default">A text</rdf:li></rdf:Alt></dc:description><dc:title><rdf:Alt><rdf:li xml:lang="x-default">A title</rdf:li></rdf:Alt></dc:title></rdf:Description>`
+	x, err := xmp.ParseXmp(strings.NewReader(xmpPacket(body)))
+	if err != nil {
+		t.Fatal(err)
+	}
+	if len(x.DC.Description) != 1 || x.DC.Description[0] != "A text" || len(x.DC.Title) != 1 || x.DC.Title[0] != "A title" {
+		t.Errorf("Description=%q Title=%q", x.DC.Description, x.DC.Title)
+	}
+}
+
+// Recorded, not repaired (C13 NARROWX): 16-bit fields wrap.
+func TestRecordedXmpNarrowFields(t *testing.T) {
+	p := xmpPacket(`<rdf:Description rdf:about="" xmlns:tiff="http://ns.adobe.com/tiff/1.0/" tiff:ImageWidth="70000" tiff:ImageLength="1000"></rdf:Description>`)
+	x, err := xmp.ParseXmp(strings.NewReader(p))
+	if err != nil {
+		t.Fatal(err)
+	}
+	if x.Tiff.ImageWidth != 4464 {
+		t.Logf("tiff:ImageWidth=70000 is now reported as %d (the recorded finding was 4464)", x.Tiff.ImageWidth)
+	} else {
+		t.Errorf("tiff:ImageWidth=\"70000\" decoded as %d", x.Tiff.ImageWidth)
+	}
+}
